@@ -76,9 +76,13 @@ class _FakePath:
         return getattr(posixpath, name)
 
 
+_DIR_STAT = os.stat('/')
+
+
 class _FakeOS:
-    def __init__(self, log):
+    def __init__(self, log, succeed=()):
         self._log = log
+        self._succeed = succeed
         self.path = _FakePath()
 
     def __getattr__(self, name):
@@ -86,6 +90,8 @@ class _FakeOS:
         if callable(real) and name not in ('fsencode', 'fsdecode', 'fspath'):
             def f(*a, **k):
                 self._log.append((name, [x for x in a if isinstance(x, (bytes, str))]))
+                if name in self._succeed:
+                    return _DIR_STAT      # "a directory"
                 raise OSError(errno.ENOENT, 'stub')
             return f
         return real
@@ -105,7 +111,8 @@ def server_ops(op: int, n: int, i0: int, i1: int, i2: int, i3: int, i4: int,
     srv = _srv()
     log = []
     saved = (S.os, getattr(S, 'open', None))
-    S.os = _FakeOS(log)
+    # directory listing: stat calls succeed so that the '.' and '..' entries the server adds are both produced
+    S.os = _FakeOS(log, ('lstat', 'stat') if name == 'scandir' else ())
 
     def fake_open(path, *a, **k):
         log.append(('open', [path]))
@@ -125,7 +132,11 @@ def server_ops(op: int, n: int, i0: int, i1: int, i2: int, i3: int, i4: int,
                 r = fn(p1, p2)
             elif name == 'scandir':
                 agen = fn(p1)
-                r = drive(agen.__anext__())
+                r = None
+                for _ in range(3):
+                    step = drive(agen.__anext__())
+                    if step[0] != 'ret':
+                        break
             else:
                 r = fn(p1)
             if hasattr(r, 'send'):
